@@ -22,7 +22,8 @@
      cut vzero cols x    the entries cols of a row x  (A * projection^T) *)
 From Coq Require Import List ZArith Arith Lia Sorted Permutation.
 Import ListNotations.
-From PP Require Import Model.C05 Proofs.C05 Model.C06 Proofs.C06.
+From PP Require Import Model.C05 Proofs.C05 Model.C06 Proofs.C06 Model.C07 Model.C06_schur
+     Proofs.C06_schur.
 
 (* The parser accepts exactly the well-formed arguments (anything else: ValueError) and
    returns, in equation-insertion order, one entry per mentioned equation, determined by
@@ -128,6 +129,67 @@ Theorem C06_layout :
 Proof. exact set_equation_layout. Qed.
 Print Assumptions C06_layout.
 
+(* The Schur assembly is an assemble-method as well: after ANY history, a successful
+   assemble_schur_complement_system (model: schur_step, repaired code) leaves in
+   assembled_equation_indices exactly what assemble(equations=primary_equations) reports
+   (C06_indices): one consecutive range per primary equation, the rows of the primary block;
+   the equations themselves are untouched. *)
+Theorem C06_schur_indices :
+  forall (V : Type) (vzero : V) (vopp : V -> V) (eval : nat -> list (@prow V))
+         g s ops pe pv es',
+  let es := efinal vzero vopp eval g s ops in
+  sized eval es ->
+  schur_step vzero vopp eval s es pe pv = (es', XDone) ->
+  arg_ok es pe = true /\ aei es' = ind_spec es pe /\
+  equations es' = equations es /\ comp es' = comp es.
+Proof. exact @schur_step_indices. Qed.
+Print Assumptions C06_schur_indices.
+
+(* update_equation (grids / size info defaulting to the stored ones): a successful call
+   moves the equation to the END of the insertion order and stores the image set_equation
+   stores for the resulting grids and size info. *)
+Theorem C06_update :
+  forall g es name op grids info es',
+  update_equation g es name op grids info = (es', None) ->
+  exists gs i,
+    (match grids with Some x => Some x | None => option_map (map fst) (dget (comp es) name) end)
+      = Some gs /\
+    (match info with Some x => Some x | None => dget (sinfo es) name end) = Some i /\
+    equations es' = ddel (equations es) name ++ [(name, op)] /\
+    img_of es' name = img_spec g i (filter (fun d => domin d gs) (grid_order g)) 0.
+Proof. exact update_equation_layout. Qed.
+Print Assumptions C06_update.
+
+(* C06_rows over histories that also contain update_equation calls and Schur assemblies
+   (sfinal: any list of set / remove / assemble / update / Schur-assembly calls, failing ones
+   included): the slice statement is unchanged. *)
+Theorem C06_rows_histories :
+  forall (V : Type) (vzero : V) (vopp : V -> V) (eval : nat -> list (@prow V))
+         g s ops a r cols n,
+  let es := sfinal vzero vopp eval g s ops in
+  sized eval es -> arg_ok es a = true ->
+  projection_to s (asm_vars s r) = OProjM cols n ->
+  let Af := map (fun rw => cut vzero cols (fst rw)) (full eval es) in
+  let bf := map (fun rw => vopp (snd rw)) (full eval es) in
+  let R := rows_spec es a in
+  assemble vzero vopp eval s es true ENone r =
+    (with_aei es (ind_spec es ENone), AJac Af bf (length cols)) /\
+  assemble vzero vopp eval s es true a r =
+    (with_aei es (ind_spec es a),
+     AJac (map (fun i => nth i Af []) R) (map (fun i => nth i bf (vopp vzero)) R)
+          (length cols)) /\
+  StronglySorted lt R /\ Forall (fun i => i < length Af) R /\ length bf = length Af.
+Proof. exact @thm_slice_s. Qed.
+Print Assumptions C06_rows_histories.
+
+(* The size hypothesis [sized] of the theorems above is decidable; the checker evaluated by
+   the execution correspondence on every generated history is sound and complete for it. *)
+Theorem C06_sized_checker :
+  forall (V : Type) (eval : nat -> list (@prow V)) (es : est),
+  sizedb eval es = true <-> sized eval es.
+Proof. exact @sizedb_sound. Qed.
+Print Assumptions C06_sized_checker.
+
 (* Non-vacuity: two subdomains and one interface; a cell variable on both subdomains and an
    interface variable (5 dofs); three equations set in the order 4, 0, 2 (one failing call in
    between, one removal and re-insertion); a restriction given as a list with an overriding
@@ -163,7 +225,12 @@ Example C06_nonvacuous :
   snd (assemble 0%Z Z.opp ex6_eval s es true ex6_arg (Some [ByName 1; ById 0])) =
     AJac [[0; 0; 5; 0]; [0; 9; 0; 0]]%Z [-12; -30]%Z 4 /\
   snd (assemble 0%Z Z.opp ex6_eval s es false ex6_arg None) = ARes [-12; -30]%Z /\
-  arg_ok es (EDict [(4, [Intf 0])]) = false.
+  arg_ok es (EDict [(4, [Intf 0])]) = false /\
+  schur_step 0%Z Z.opp ex6_eval s es (EList [IName 0; IName 4]) (Some [ById 0; ByName 1]) =
+    (with_aei es [(4, [0; 1; 2]); (0, [3; 4])], XDone) /\
+  map fst (equations (sfinal 0%Z Z.opp ex6_eval ex6_g s
+                             (map SBase ex6_ops ++ [SUpdate 4 0 None (Some (1, 0, 0))])))
+    = [0; 2; 4].
 Proof.
   split; [|split].
   - unfold ex6_vops, wf_op, grids_ok. repeat constructor; cbn; lia.
